@@ -158,10 +158,11 @@ func TestVerif_C19_life(t *testing.T) {
 	defer proxy.Close()
 	fresh := func() *Client { c := C(); c.SetLogger(nil); c.SetTimeout(15 * time.Second); return c }
 	seq := 0
-	nFail := 0
+	nFail, nChecks := 0, 0
 	obs := func(id string, ok bool, detail string) {
 		s.Observe(id, ok, "", true, id, detail)
 		s.Count("check")
+		nChecks++
 		if !ok {
 			s.Count("failed")
 			nFail++
@@ -348,6 +349,9 @@ func TestVerif_C19_life(t *testing.T) {
 				s.Count("when:" + when)
 			}
 		}
+	}
+	if nFail == 0 && nChecks < 240 {
+		t.Errorf("lane life made only %d checks (expected >= 240): scenarios are being skipped", nChecks)
 	}
 	s.Finish()
 }
